@@ -26,7 +26,8 @@ Bounded(T) == \A n \in 1..Len(T.data) : T.data[n] \in (-ValueBound)..ValueBound
 
 WellFormed(e) ==
     /\ {"id", "cfg", "in", "runs"} \subseteq DOMAIN e
-    /\ {"op", "fshapes", "wlen", "coreshape", "pshapes", "hasw", "pden", "bad", "skip", "tr", "modes", "mix", "dens", "cden", "imk", "outdtype", "late", "mag", "bfshapes"} \subseteq DOMAIN e.cfg
+    /\ {"op", "fshapes", "wlen", "coreshape", "pshapes", "hasw", "pden", "bad", "skip", "tr", "modes", "mix", "dens", "cden", "imk", "outdtype", "late", "mag", "bfshapes", "wshape", "tmag", "zero", "alldtype"} \subseteq DOMAIN e.cfg
+    /\ e.cfg.tmag \in -600..600
     /\ e.cfg.late \in BOOLEAN /\ e.cfg.mag \in -600..600
     /\ (e.cfg.late => "base" \in DOMAIN e.in /\ "fs" \in DOMAIN e.in.base /\ TensOKs(e.in.base.fs))
     /\ e.cfg.op \in Kinds
@@ -35,10 +36,11 @@ WellFormed(e) ==
     /\ e.cfg.imk \in 0..Len(e.in.fs)
     /\ (e.cfg.imk > 0 => /\ "im" \in DOMAIN e.in /\ IsLoggedT(e.in.im) /\ IsTAny(e.in.im) /\ Bounded(e.in.im)
                          /\ e.in.im.shape = e.in.fs[e.cfg.imk].shape)
-    /\ (e.cfg.mix # "none" => e.cfg.bad = "none" /\ ~HasOpt(e.cfg))
+    /\ (e.cfg.mix # "none" => e.cfg.bad = "none")
     /\ "fs" \in DOMAIN e.in /\ TensOKs(e.in.fs) /\ \A k \in 1..Len(e.in.fs) : Bounded(e.in.fs[k])
     /\ (e.cfg.op \in {"cp", "p2"} =>
-            /\ {"hasw", "w"} \subseteq DOMAIN e.in /\ e.in.hasw \in BOOLEAN
+            /\ {"hasw", "w", "wshape"} \subseteq DOMAIN e.in /\ e.in.hasw \in BOOLEAN
+            /\ \A k \in 1..Len(e.in.wshape) : e.in.wshape[k] \in Nat
             /\ \A r \in 1..Len(e.in.w) : e.in.w[r] \in (-ValueBound)..ValueBound)
     /\ (e.cfg.op = "cp" => "mask" \in DOMAIN e.in /\ IsLoggedT(e.in.mask) /\ IsTAny(e.in.mask) /\ Bounded(e.in.mask))
     /\ (e.cfg.op = "tucker" => "core" \in DOMAIN e.in /\ IsLoggedT(e.in.core) /\ IsTAny(e.in.core) /\ Bounded(e.in.core))
@@ -48,7 +50,7 @@ WellFormed(e) ==
     /\ \A k \in DOMAIN e.runs :
           /\ RunFields \subseteq DOMAIN e.runs[k]
           /\ e.runs[k].rejected \in BOOLEAN /\ e.runs[k].raised \in BOOLEAN /\ e.runs[k].exact \in BOOLEAN /\ e.runs[k].convert \in BOOLEAN
-          /\ {"has", "fin0", "fin3", "q3", "q0"} \subseteq DOMAIN e.runs[k].norm
+          /\ {"has", "fin0", "fin3", "q3", "q0", "iszero"} \subseteq DOMAIN e.runs[k].norm
           /\ (e.cfg.op = "cp" => "masked" \in DOMAIN e.runs[k])
           /\ (e.cfg.op = "ttm" => "matrix" \in DOMAIN e.runs[k])
           /\ (e.cfg.op = "p2" => {"slices", "slice1", "slices_nv", "slice1_nv"} \subseteq DOMAIN e.runs[k])
@@ -57,7 +59,12 @@ WellFormed(e) ==
 InDomain(e) ==
     LET c == e.cfg  in == e.in IN
     /\ [k \in 1..Len(in.fs) |-> in.fs[k].shape] = c.fshapes
-    /\ (c.op \in {"cp", "p2"} => in.hasw = c.hasw /\ Len(in.w) = c.wlen)
+    /\ (c.op \in {"cp", "p2"} => in.hasw = c.hasw /\ Len(in.w) = c.wlen /\ in.wshape = c.wshape)
+    \* an exactly-zero tensor: some whole part is zero
+    /\ (c.zero # "none" =>
+            \/ \E k \in 1..Len(in.fs) : \A n \in 1..Len(in.fs[k].data) : in.fs[k].data[n] = 0
+            \/ (c.op = "tucker" /\ \A n \in 1..Len(in.core.data) : in.core.data[n] = 0)
+            \/ (c.op \in {"cp", "p2"} /\ in.hasw /\ \A r \in 1..Len(in.w) : in.w[r] = 0))
     /\ (c.op = "tucker" => in.core.shape = c.coreshape)
     /\ (c.op = "p2" => [k \in 1..Len(in.ps) |-> in.ps[k].shape] = c.pshapes /\ in.pden = c.pden)
     /\ (c.op = "cp" /\ Valid("cp", in) => in.mask.shape = CPShape(in))
@@ -90,21 +97,31 @@ Verdict(e) ==
     LET D  == IF opt THEN TuckerDenseOpt(in, c.skip, c.tr, c.modes) ELSE Dense(kd, in)
         cplx == c.imk > 0
         inI  == [in EXCEPT !.fs[c.imk] = in.im]          \* only used when cplx
-        DI   == Dense(kd, inI)
+        DI   == IF opt THEN TuckerDenseOpt(inI, c.skip, c.tr, c.modes) ELSE Dense(kd, inI)
+        \* transpose_factors is the CONJUGATE transpose: the imaginary part of a transposed complex factor changes sign;
+        \* a factor that is left out contributes nothing
+        isgn  == IF opt /\ c.tr THEN -1 ELSE 1
+        izero == opt /\ c.skip = c.imk - 1
         needviews == c.modes = <<>>
         \* after parts were replaced the cached .shape / .rank attributes are stale by design: only the conversions are obliged
         needmeta  == ~opt /\ ~c.late
-        neednorm  == ~opt /\ c.mix = "none" /\ ~c.late
+        neednorm  == ~opt /\ c.mix \in {"none", "f32_all"} /\ ~c.late
+        \* single precision: squaring the reported norm is exact to a few ulp(float32) ~ 5e-7 relative
+        F32Tol == IF c.mix = "f32_all" THEN 1 + (n2 \div 500) ELSE 0
         N  == Len(D.shape)
         n2 == Norm2(D)
         \* logged tensor x against the exact tensor (real part Tre, imaginary part Tim)
         CV(x, Tre, Tim) == /\ IsLoggedT(x) /\ SameT(x, Tre)
-                           /\ (cplx => "im" \in DOMAIN x /\ x.im = Tim.data)
+                           /\ (cplx => /\ "im" \in DOMAIN x /\ Len(x.im) = Len(Tim.data)
+                                       /\ \A n \in 1..Len(x.im) : x.im[n] = (IF izero THEN 0 ELSE isgn * Tim.data[n]))
         UnfOK(r) == /\ Len(r.unf) = N
                     /\ \A m \in 0..(N - 1) : CV(r.unf[m + 1], Unfold(D, m), Unfold(DI, m))
+        AbsD(x) == IF x < 0 THEN -x ELSE x
+        \* (under a total-magnitude scaling 2^e the harness multiplies the reported norm by 2^-e, exactly, before squaring)
         NormOK(r) == \/ ~r.norm.has \/ ~neednorm
-                     \/ IF n2 <= NormCap THEN r.norm.fin3 /\ r.norm.q3 = NormScale * n2
-                                         ELSE r.norm.fin0 /\ r.norm.q0 = n2
+                     \/ /\ (n2 = 0 => r.norm.iszero)                        \* an exactly-zero tensor has norm exactly 0
+                        /\ IF n2 <= NormCap THEN r.norm.fin3 /\ AbsD(r.norm.q3 - NormScale * n2) <= NormScale * F32Tol
+                                            ELSE r.norm.fin0 /\ AbsD(r.norm.q0 - n2) <= F32Tol
         SlicesOK(sl) == /\ Len(sl) = Len(in.ps)
                         /\ \A s \in 1..Len(sl) : CV(sl[s], P2Slice(in, s), P2Slice(inI, s))
         Clause(r) ==
